@@ -10,6 +10,13 @@ re-checked by coqc) + experiments on the real compiler through its three entry p
     must lie inside the model's field universe).
 Results (file map or exception class + text) must be identical.
 
+Strengthening round 2: SAME-TEXT FAMILIES (one source text compiled under several definitions of one entity - number macro, macro, binder,
+envs, command, condition, #del, override, link, resource, header flags, jmc.txt names, pack_format, namespace, description, included header
+file, imported file / files under a wildcard, copied folder - all members in one folder, every ordered pair in one process through every entry
+point) and the CACHE AUDIT (c12_run.py CacheAudit: functools caches of the package are called through a recording proxy; after every compile
+what earlier compiles stored is recomputed un-cached: a memo keyed by less than its value depends on yields a witness).  State held in
+function objects (mutable default arguments, closure cells, cache sizes) is part of the global-state diff.
+
 The pool is measured, not assumed (strengthening round 1): per Header field of the regenerated universe the projects that
 leave it different from its reset value (mutators) and — self-test, in the runner process — the projects whose result changes
 when the reset of that one field is undone (observers); per set-iteration site of the regenerated table how many compiles
@@ -339,6 +346,9 @@ def main(tier: str) -> int:
         "reset / perturb one module-level container in the runner process only MEASURE the pool, no verdict depends on them)",
         "translate_proc.py additionally checks that a module constant copied by a reset (VANILLA_CONDITIONS.copy()) is a flat literal that no "
         "statement of the package mutates or aliases by name",
+        "memoisation (functools caches, module-level / class-level / default-argument / closure containers) is process state outside U: containers "
+        "that change are reported by the state diff; a functools cache is accepted only if every entry an earlier compile stored is what the "
+        "un-cached function computes after every later compile of the pool (c12_run.py CacheAudit; caches it cannot intercept are reported)",
     ]
     ck.proof(extra_targets=["Run/C12.vo"])
 
@@ -823,7 +833,11 @@ def main(tier: str) -> int:
         seed_projects={e: len(v) for e, v in seed_ids.items()},
         globals_written=written, globals_written_outside_model=outside,
         persistent_functools_caches=sorted(cache_rows.values(), key=lambda c: c["cache"]), memo_witnesses=witnesses[:6],
-        same_text_families={f: sorted(p["id"] for p in FAMILIES if "fam:" + f in p["tags"]) for f in sorted({t[4:] for p in FAMILIES for t in p["tags"] if t.startswith("fam:")})},
+        same_text_families={f: dict(members=len(m), ordered_pairs_compiled_per_entry_point=len(m) * (len(m) - 1),
+                                    pairs_whose_results_differ={e: sum(1 for a in m for b in m if a < b and (e, a) in base and (e, b) in base
+                                                                       and not same(base[(e, a)], base[(e, b)])) for e in ENTRIES})
+                            for f in sorted({t[4:] for p in FAMILIES for t in p["tags"] if t.startswith("fam:")})
+                            for m in [sorted(p["id"] for p in FAMILIES if "fam:" + f in p["tags"])]},
     ))
     return ck.finish()
 
